@@ -1,5 +1,5 @@
 (* ReproP.v — proofs about Model/Repro.v (property C09). *)
-From Coq Require Import ZArith List Bool Lia Permutation Sorted.
+From Coq Require Import ZArith List Bool Lia Permutation Sorted FinFun.
 From V.Model Require Import Repro.
 Import ListNotations.
 Open Scope Z_scope.
@@ -254,13 +254,23 @@ Proof.
 Qed.
 
 (* ---- _add_name *)
+Lemma find_index_sound fuel A n : forall i k, find_index fuel A n i = Some k ->
+  i <= k /\ ~ In (n ++ [dollar] ++ dec k) A.
+Proof.
+  induction fuel as [|f IH]; intros i k H; cbn [find_index] in H; [discriminate|].
+  destruct (mem (n ++ [dollar] ++ dec i) A) eqn:E.
+  - apply IH in H as [H1 H2]. split; [lia|exact H2].
+  - inversion H; subst. split; [lia|apply mem_nIn; exact E].
+Qed.
+
 Lemma add_name_spec A n n' A' : add_name A n = Some (n', A') ->
-  ~ In n' A /\ A' = A ++ [n'] /\ (n' = n \/ (In n A /\ n' = n ++ [dollar] ++ dec (zlen A))).
+  ~ In n' A /\ A' = A ++ [n'] /\
+  (n' = n \/ (In n A /\ exists i, zlen A <= i /\ n' = n ++ [dollar] ++ dec i)).
 Proof.
   unfold add_name. destruct (mem n A) eqn:E.
-  - destruct (mem (n ++ [dollar] ++ dec (zlen A)) A) eqn:E2; [discriminate|].
-    intro H. inversion H; subst. apply mem_nIn in E2. apply mem_In in E.
-    split; [exact E2|]. split; [apply set_add_new; exact E2|]. right. auto.
+  - destruct (find_index (S (length A)) A n (zlen A)) as [i|] eqn:E2; [|discriminate].
+    intro H. inversion H; subst. apply find_index_sound in E2 as [Hi Hn]. apply mem_In in E.
+    split; [exact Hn|]. split; [apply set_add_new; exact Hn|]. right. split; [exact E|]. exists i. auto.
   - intro H. inversion H; subst. apply mem_nIn in E. split; [exact E|]. split; [apply set_add_new; exact E|]. left; reflexivity.
 Qed.
 
@@ -296,6 +306,12 @@ Proof.
 Qed.
 
 (* assigned_names is a Python set: the result does not depend on how the set is laid out *)
+Lemma find_index_perm fuel A B n : Permutation A B -> forall i, find_index fuel A n i = find_index fuel B n i.
+Proof.
+  intro H. induction fuel as [|f IH]; intro i; cbn [find_index]; [reflexivity|].
+  rewrite (mem_perm _ A B H). destruct (mem (n ++ [dollar] ++ dec i) B); [apply IH|reflexivity].
+Qed.
+
 Lemma add_name_set_independent A B n : Permutation A B ->
   match add_name A n, add_name B n with
   | Some (x, A'), Some (y, B') => x = y /\ Permutation A' B'
@@ -303,9 +319,9 @@ Lemma add_name_set_independent A B n : Permutation A B ->
   | _, _ => False
   end.
 Proof.
-  intro H. unfold add_name. rewrite (mem_perm n A B H), (zlen_perm A B H).
+  intro H. unfold add_name. rewrite (mem_perm n A B H), (zlen_perm A B H), (Permutation_length H).
   destruct (mem n B).
-  - rewrite (mem_perm _ A B H). destruct (mem (n ++ [dollar] ++ dec (zlen B)) B); [exact I|].
+  - rewrite (find_index_perm _ A B n H). destruct (find_index (S (length B)) B n (zlen B)); [|exact I].
     split; [reflexivity|apply set_add_perm; exact H].
   - split; [reflexivity|apply set_add_perm; exact H].
 Qed.
@@ -320,58 +336,58 @@ Proof.
   destruct (add_names A' ns) as [[o1 a1]|]; destruct (add_names B' ns) as [[o2 a2]|]; simpl in *; congruence.
 Qed.
 
-(* ---- when can the assert fail?  never, if no requested name looks like a later generated one *)
-Definition bounded (A : list name) : Prop :=
-  forall s k, 0 <= k -> In (s ++ [dollar] ++ dec k) A -> k < zlen A.
-Definition plain (n : name) : Prop := forall s k, 0 <= k -> n <> s ++ [dollar] ++ dec k.
+(* ---- the retry loop of _add_name always finds a free index within |assigned| + 1 tries *)
+Definition cand (n : name) (i : Z) (k : nat) : name := n ++ [dollar] ++ dec (i + Z.of_nat k).
 
-Lemma plain_suffix_ok b n : plain n -> suffix_ok b n.
-Proof. intros H s k Hk E. exfalso. exact (H s k Hk E). Qed.
-Lemma plain_bounded A : Forall plain A -> bounded A.
-Proof. intros H s k Hk Hin. rewrite Forall_forall in H. exfalso. exact (H _ Hin s k Hk eq_refl). Qed.
-
-Lemma add_name_total A n : bounded A -> suffix_ok (zlen A) n ->
-  exists n' A', add_name A n = Some (n', A') /\ bounded A' /\ zlen A' = zlen A + 1.
+Lemma cand_injective n i : 0 <= i -> Injective (cand n i).
 Proof.
-  intros HB HS. unfold add_name. destruct (mem n A) eqn:E.
-  - destruct (mem (n ++ [dollar] ++ dec (zlen A)) A) eqn:E2.
-    + apply mem_In in E2. apply HB in E2; [lia|apply zlen_nonneg].
-    + apply mem_nIn in E2. do 2 eexists. split; [reflexivity|]. rewrite (set_add_new _ _ E2).
-      split; [|rewrite zlen_app; reflexivity].
-      intros s k Hk Hin. rewrite zlen_app. change (zlen [n ++ [dollar] ++ dec (zlen A)]) with 1.
-      apply in_app_or in Hin as [Hin|[Hin|[]]].
-      * apply HB in Hin; auto. lia.
-      * apply dollar_split in Hin as [_ Hin]; auto; [lia|apply zlen_nonneg].
-  - apply mem_nIn in E. do 2 eexists. split; [reflexivity|]. rewrite (set_add_new _ _ E).
-    split; [|rewrite zlen_app; reflexivity].
-    intros s k Hk Hin. rewrite zlen_app. change (zlen [n]) with 1.
-    apply in_app_or in Hin as [Hin|[Hin|[]]].
-    + apply HB in Hin; auto. lia.
-    + pose proof (HS s k Hk Hin). lia.
+  intros Hi x y E. unfold cand in E. apply dollar_split in E as [_ E]; lia.
 Qed.
 
-Lemma add_names_total ns : forall A, bounded A -> suffixes_ok (zlen A) ns ->
-  exists out A', add_names A ns = Some (out, A') /\ bounded A' /\ zlen A' = zlen A + zlen ns.
+Lemma free_or_all A n i m :
+  (exists k, (k < m)%nat /\ ~ In (cand n i k) A) \/ (forall k, (k < m)%nat -> In (cand n i k) A).
 Proof.
-  induction ns as [|n ns IH]; intros A HB HS; simpl.
-  - do 2 eexists. split; [reflexivity|]. split; [exact HB|]. unfold zlen at 3. simpl. lia.
-  - destruct HS as [H1 H2]. destruct (add_name_total A n HB H1) as (n' & A1 & E1 & HB1 & HL1).
-    rewrite E1. rewrite <- HL1 in H2. destruct (IH A1 HB1 H2) as (out & A2 & E2 & HB2 & HL2).
-    rewrite E2. do 2 eexists. split; [reflexivity|]. split; [exact HB2|].
-    rewrite HL2, HL1. unfold zlen. simpl length. lia.
+  induction m as [|m IH]; [right; intros k Hk; lia|].
+  destruct IH as [(k & Hk & Hn)|Hall]; [left; exists k; split; [lia|exact Hn]|].
+  destruct (mem (cand n i m) A) eqn:E.
+  - right. intros k Hk. destruct (Nat.eq_dec k m) as [->|Hne]; [apply mem_In; exact E|apply Hall; lia].
+  - left. exists m. split; [lia|apply mem_nIn; exact E].
 Qed.
 
-(* the default names of anonymous subfragments, `Type$<index>`, can never trigger the assert *)
-Lemma sub_requests_ok subs : forall i b, 0 <= i -> i <= b ->
-  Forall (fun s => match fst s with Some n => plain n | None => True end) subs ->
-  suffixes_ok b (sub_requests i subs).
+(* pigeonhole: |A| + 1 distinct candidates cannot all be members of A *)
+Lemma exists_free A n i : 0 <= i -> exists k, (k < S (length A))%nat /\ ~ In (cand n i k) A.
 Proof.
-  induction subs as [|s subs IH]; intros i b Hi Hb HF; simpl; [exact I|].
-  inversion HF as [|? ? Hs HF']; subst. split.
-  - unfold sub_request. destruct (fst s) as [n|].
-    + apply plain_suffix_ok. exact Hs.
-    + intros s' k Hk E. apply dollar_split in E as [_ <-]; auto.
-  - apply IH; auto; lia.
+  intro Hi. destruct (free_or_all A n i (S (length A))) as [H|Hall]; [exact H|exfalso].
+  assert (Hd : NoDup (map (cand n i) (seq 0 (S (length A))))).
+  { apply Injective_map_NoDup; [apply cand_injective; exact Hi|apply seq_NoDup]. }
+  assert (Hincl : incl (map (cand n i) (seq 0 (S (length A)))) A).
+  { intros x Hx. apply in_map_iff in Hx as (k & <- & Hk). apply in_seq in Hk. apply Hall. lia. }
+  pose proof (NoDup_incl_length Hd Hincl) as HL. rewrite map_length, seq_length in HL. lia.
+Qed.
+
+Lemma find_index_total fuel A n : forall i, 0 <= i ->
+  (exists k, (k < fuel)%nat /\ ~ In (cand n i k) A) -> exists j, find_index fuel A n i = Some j.
+Proof.
+  induction fuel as [|f IH]; intros i Hi (k & Hk & Hn); [lia|]. cbn [find_index].
+  destruct (mem (n ++ [dollar] ++ dec i) A) eqn:E; [|eexists; reflexivity].
+  apply IH; [lia|]. destruct k as [|k].
+  - exfalso. apply Hn. unfold cand. rewrite Z.add_0_r. apply mem_In. exact E.
+  - exists k. split; [lia|]. unfold cand in *. replace (i + 1 + Z.of_nat k) with (i + Z.of_nat (S k)) by lia. exact Hn.
+Qed.
+
+(* _add_name always returns (the fuel |assigned|+1 of the model's loop is never exhausted) *)
+Lemma add_name_total A n : exists n' A', add_name A n = Some (n', A').
+Proof.
+  unfold add_name. destruct (mem n A); [|do 2 eexists; reflexivity].
+  destruct (find_index_total (S (length A)) A n (zlen A) (zlen_nonneg A) (exists_free A n (zlen A) (zlen_nonneg A))) as [j E].
+  rewrite E. do 2 eexists. reflexivity.
+Qed.
+
+Lemma add_names_total ns : forall A, exists out A', add_names A ns = Some (out, A').
+Proof.
+  induction ns as [|n ns IH]; intro A; simpl; [do 2 eexists; reflexivity|].
+  destruct (add_name_total A n) as (n' & A1 & E1). rewrite E1.
+  destruct (IH A1) as (out & A2 & E2). rewrite E2. do 2 eexists. reflexivity.
 Qed.
 
 (* ---- Design._assign_names for one fragment *)
@@ -507,39 +523,27 @@ Proof.
     apply in_app_or in Hx. apply in_or_app. tauto.
 Qed.
 
-Lemma name_conns_total private cs : forall a m,
-  bounded a -> Forall (fun c => plain (snd c)) cs ->
-  exists a' m', name_conns private a m cs = Some (a', m') /\ bounded a' /\ zlen a <= zlen a'.
+Lemma name_conns_total private cs : forall a m, exists a' m', name_conns private a m cs = Some (a', m').
 Proof.
-  induction cs as [|[id n] cs IH]; intros a m HB HF; simpl.
-  - do 2 eexists. split; [reflexivity|]. split; [exact HB|lia].
-  - inversion HF as [|? ? Hn HF']; subst. simpl in Hn.
-    destruct (alookup id m); [apply IH; auto|].
-    destruct (private && name_eqb n []); [apply IH; auto|].
-    destruct (add_name_total a n HB (plain_suffix_ok _ _ Hn)) as (n' & a1 & E & HB1 & HL). rewrite E.
-    destruct (IH a1 (aset id n' m) HB1 HF') as (a' & m' & E' & HB' & HL'). rewrite E'.
-    do 2 eexists. split; [reflexivity|]. split; [exact HB'|lia].
+  induction cs as [|[id n] cs IH]; intros a m; simpl; [do 2 eexists; reflexivity|].
+  destruct (alookup id m); [apply IH|].
+  destruct (private && name_eqb n []); [apply IH|].
+  destruct (add_name_total a n) as (n' & a1 & E). rewrite E. apply IH.
 Qed.
 
-(* the assertion in _add_name cannot fail when the reserved port names are `bounded` and no signal,
-   IO port or explicitly named subfragment has a name of the form s$<number> *)
-Lemma assign_names_total tports sigs ios subs :
-  bounded (fst (fst (reserve_ports tports))) ->
-  Forall (fun c => plain (snd c)) sigs -> Forall (fun c => plain (snd c)) ios ->
-  Forall (fun s => match fst s with Some n => plain n | None => True end) subs ->
-  exists r, assign_names tports sigs ios subs = Some r.
+(* _assign_names always returns, whatever the names (since fix cb9d97a) *)
+Lemma assign_names_total tports sigs ios subs : exists r, assign_names tports sigs ios subs = Some r.
 Proof.
-  intros HB Hs Hi Hsub. unfold assign_names. destruct (reserve_ports tports) as [[a0 sn0] ion0]. simpl in HB.
-  destruct (name_conns_total true sigs a0 sn0 HB Hs) as (a1 & sn1 & E1 & HB1 & _). rewrite E1.
-  destruct (name_conns_total false ios a1 ion0 HB1 Hi) as (a2 & ion1 & E2 & HB2 & _). rewrite E2.
-  destruct (add_names_total (sub_requests 0 subs) a2 HB2) as (out & a3 & E3 & _).
-  { apply sub_requests_ok; auto; [lia|apply zlen_nonneg]. }
-  rewrite E3. eexists. reflexivity.
+  unfold assign_names. destruct (reserve_ports tports) as [[a0 sn0] ion0].
+  destruct (name_conns_total true sigs a0 sn0) as (a1 & sn1 & E1). rewrite E1.
+  destruct (name_conns_total false ios a1 ion0) as (a2 & ion1 & E2). rewrite E2.
+  destruct (add_names_total (sub_requests 0 subs) a2) as (out & a3 & E3). rewrite E3. eexists. reflexivity.
 Qed.
 
-(* S3: signals named a, a$2, a in one fragment (no ports, no subfragments) *)
+(* S3: signals named a, a$2, a in one fragment (no ports, no subfragments): the third gets a$3 *)
 Definition s3_sigs : list (Z * name) := [(0, [97]); (1, [97; 36; 50]); (2, [97])].
-Lemma assign_names_assert_refuted : assign_names [] s3_sigs [] [] = None.
+Lemma assign_names_s3 :
+  option_map (fun r => vals (nm_signals r)) (assign_names [] s3_sigs [] []) = Some [[97]; [97; 36; 50]; [97; 36; 51]].
 Proof. vm_compute. reflexivity. Qed.
 
 (* ---- Design._assign_port_names *)
@@ -722,29 +726,12 @@ Lemma reset_keeping_triggers_refuted :
                  stops n (rearm 0 (e_active (reset_keeping_triggers e)) ws) <> stops n ws.
 Proof. exists s5_engine, [2; 4; 7], 4%nat. split; vm_compute; discriminate. Qed.
 
-(* the set of port names left by _assign_port_names (prenamed + generated) is `bounded`, i.e. it is a legal
-   starting set for _assign_names of the top fragment (hypothesis of assign_names_total) *)
-Definition gen_ports (ports : list (option name * name)) (l : list name) : list name :=
-  map snd (filter (fun p => match fst (fst p) with None => true | Some _ => false end) (combine ports l)).
-
-Lemma port_names_go_bounded ports : forall A l,
-  bounded A -> Forall (fun p => fst p = None -> plain (snd p)) ports ->
-  port_names_go A ports = Ok l -> bounded (A ++ gen_ports ports l).
+(* _assign_port_names never runs out of fuel: it returns the names or raises TypeError (private name) *)
+Lemma port_names_go_total ports : forall A, port_names_go A ports <> AssertErr.
 Proof.
-  induction ports as [|[[n|] cn] ports IH]; intros A l HB HF H; simpl in H.
-  - inversion H; subst. unfold gen_ports. simpl. rewrite app_nil_r. exact HB.
-  - destruct (port_names_go A ports) as [l'| |] eqn:E; try discriminate. inversion H; subst.
-    inversion HF; subst. unfold gen_ports. simpl. apply IH; auto.
+  induction ports as [|[[n|] cn] ports IH]; intro A; simpl; [discriminate| |].
+  - specialize (IH A). destruct (port_names_go A ports); congruence.
   - destruct (name_eqb cn []); [discriminate|].
-    destruct (add_name A cn) as [[n' a']|] eqn:E1; [|discriminate].
-    destruct (port_names_go (set_add n' a') ports) as [l'| |] eqn:E; try discriminate. inversion H; subst.
-    inversion HF as [|? ? Hp HF']; subst. simpl in Hp.
-    destruct (add_name_total A cn HB (plain_suffix_ok _ _ (Hp eq_refl))) as (n2 & a2 & E2 & HB2 & _).
-    rewrite E1 in E2. inversion E2; subst n2 a2.
-    apply add_name_spec in E1 as (Hn & -> & _).
-    assert (Hs : set_add n' (A ++ [n']) = A ++ [n']).
-    { unfold set_add. assert (M : mem n' (A ++ [n']) = true) by (apply mem_In, in_or_app; right; left; reflexivity).
-      rewrite M. reflexivity. }
-    rewrite Hs in E. specialize (IH _ _ HB2 HF' E).
-    unfold gen_ports in *. simpl. rewrite <- app_assoc in IH. exact IH.
+    destruct (add_name_total A cn) as (n' & a' & E). rewrite E.
+    specialize (IH (set_add n' a')). destruct (port_names_go (set_add n' a') ports); congruence.
 Qed.
